@@ -32,7 +32,8 @@ REQUIRED_THEOREMS = ['OpusProps.C03.' + t for t in (
     'silkSyms_tables_frozen_eq_repo', 'silkSyms_lsb_loop_exits', 'silkSyms_pulses_fit_int16',
     'silkSyms_symbols_history_free', 'silkSyms_lag_index_packet_bound', 'celtHdr_total_in_range', 'celtHdr_total_arbitrary_bytes',
     'celtHdr_hybrid_total_in_range', 'celtHdr_tables_frozen_eq_repo', 'celtBands_no_fault',
-    'celtFrame_total', 'celtFrame_total_arbitrary_bytes')]
+    'celtFrame_total', 'celtFrame_total_arbitrary_bytes', 'celtFrame_preserves_J',
+    'celtBands_reads_within_tracked_budget')]
 UNPROVED = [
     'silkSyms_lag_index_tight_bound: lagIndex in [-16, 277]. Proved is the packet-level bound [-48, 321] '
     '(silkSyms_lag_index_packet_bound, a counting argument plus history-freeness, enough for the opus_int16 store); the sharper '
@@ -45,8 +46,6 @@ UNPROVED = [
     'never taken) and tell <= budget + slack inside quant_all_bands — needs the cost accounting of the range coder against the '
     'pulse cache (C08/C17 territory); the model keeps the exit, and the differential run observes that neither the decoder nor '
     'the model ever takes it',
-    'celtBands J hand-over: that the band data preserves the decoder invariant J is not proved (not needed for totality: nothing '
-    'behind the header has a precondition on the decoder state)',
     'pcm_within_tolerance: the PCM clause is a statement about float DSP relative to an external reference decoder that does not '
     'exist offline; guarded by the self-reference corpus (regression oracle) only',
 ]
@@ -147,6 +146,41 @@ def _build_opus_compare():
         if rc != 0:
             raise RuntimeError('cannot build src/opus_compare.c: ' + out[-1500:])
     return exe
+
+
+WRAP_BUDGET = ['-Wl,--wrap=quant_all_bands,--wrap=ec_dec_uint,--wrap=celt_decode_with_ec_dred']
+WRAP_SYNTH = ['-Wl,' + ','.join('--wrap=' + x for x in ('quant_all_bands', 'ec_dec_uint', 'celt_decode_with_ec_dred', 'ec_dec_bit_logp',
+                                                          'ec_dec_bits', 'ec_dec_icdf', 'ec_decode_bin', 'ec_decode', 'ec_dec_update'))]
+
+
+def budget_search(ctx):
+    hb = ctx.harness('c03_budget', ['c03_budget.c'], variant='plain', extra=WRAP_BUDGET, opt='-O2')
+    hs = ctx.harness('c03_synth', ['c03_synth.c'], variant='plain', extra=WRAP_SYNTH, opt='-O2')
+    q = ctx.quick
+    runs = [('scan', [hb, 'scan', str(ctx.seed), '300000' if q else '6000000', '40']),
+            ('enc', [hb, 'scan', str(ctx.seed), '100000' if q else '2000000', '0', 'enc']),
+            ('synth', [hs, str(ctx.seed), '60' if q else '1500', '600' if q else '1500'])]
+    res = {'frames': 0, 'wit': [], 'lines': []}
+    import concurrent.futures as cf
+    with cf.ThreadPoolExecutor(3) as ex:
+        outs = list(ex.map(lambda r: common.sh(r[1], None, 3000), runs))
+    for (name, cmd), (rc, out) in zip(runs, outs):
+        summ = [l for l in out.splitlines() if l.startswith('# ') and ('frames=' in l or 'starts=' in l)]
+        res['lines'].append('%s: %s' % (name, summ[-1][2:] if summ else 'no summary (rc=%d)' % rc))
+        m = re.search(r'frames=(\d+)', out)
+        res['frames'] += int(m.group(1)) if m else 0
+        if rc != 0:
+            res['wit'].append({'suite': 'silksyms-budget', 'input': ' '.join(cmd[1:]), 'expected': 'the run completes',
+                               'observed': 'exit code %d: %s' % (rc, out[-300:]), 'why': 'the implementation trapped during the bit-budget search'})
+        for l in out.splitlines():
+            if l.startswith('W '):
+                mm = re.search(r'ch=(\d) .*pkt=(x[0-9a-f]+)', l)
+                res['wit'].append({'suite': 'silksyms', 'input': 'silksyms packet 48000 %s 0 0 %s' % (mm.group(1), mm.group(2)) if mm else l,
+                                   'expected': 'opus_decode never returns OPUS_INTERNAL_ERROR; ec_tell(dec) <= 8*len at the end of a CELT frame',
+                                   'observed': l[2:200],
+                                   'why': 'a CELT frame drove the range decoder past its bit budget: celt_decode_with_ec takes the '
+                                          '`ec_tell(dec) > 8*len` exit and opus_decode returns OPUS_INTERNAL_ERROR'})
+    return res
 
 
 def corpus_check(ctx, h, collect=False):
@@ -295,6 +329,13 @@ def search(ctx):
     if rc != 0 and not wit:
         wit.append({'suite': 'silksyms-search', 'input': 'search %d %d' % (ctx.seed, n), 'expected': 'search completes',
                     'observed': 'exit code %d: %s' % (rc, out[-400:]), 'why': 'the implementation trapped during the final-range search'})
+    # (3) bit budget of CELT frames: can the `ec_tell(dec) > 8*len` exit (OPUS_INTERNAL_ERROR) be reached?  Tight-budget arbitrary bytes,
+    #     hard-CBR encoder frames, and frames synthesised symbol by symbol and hill-climbed towards the two pulse-cache entries whose
+    #     coded cost exceeds the cached cost.  Any decode error / negative bits_left is a failing packet.
+    bud = budget_search(ctx)
+    for w in bud['wit'][:3]:
+        wit.append(w)
+    cases += bud['frames']
     cor = corpus_check(ctx, h)
     for f in cor['fails'][:5]:
         wit.append({'suite': 'silksyms-corpus',
@@ -315,7 +356,8 @@ def search(ctx):
                       'pitch extremes, hard-panned full-scale stereo, energy extremes) decoded at 5 rates x 2 channel counts: bit-exact '
                       'comparison at 48 kHz, src/opus_compare.c at the RFC threshold at every rate' % cor['streams'],
             'final_range': info, 'corpus': {k: v for k, v in cor.items() if k not in ('fails', 'all_q', 'all_exact')},
-            'samples': ['search %d %d -> %d packets, %d violations; %s' % (ctx.seed, n, cases, len(wit), info),
+            'budget': bud['lines'],
+            'samples': ['search %d %d -> %d packets, %d violations; %s' % (ctx.seed, n, cases, len(wit), info)] + bud['lines'] + [
                         'corpus: %d streams, %d comparisons, min quality %s %%, %d bit-exact at 48 kHz stereo'
                         % (cor['streams'], cor['comparisons'], cor['min_q'], cor['exact_48k'])],
             'witnesses': wit[:10]}
